@@ -305,6 +305,7 @@ def finish(M, rec, write=True):
         for q_ in ("v", "rho", "w"):
             rec.gate(q_ in rec.cover.get("negative_plain_quantities", set()),
                      f"no case whose plain next {q_} is negative (nothing for the clamp to act on)")
+    rec.extra["exhaustive_subspaces"] = ["all 64 combinations of the six positivity options on every engine"]
     return rec.finish(
         ["pairs_numpy", "pairs_casadi_compiled", "pairs_casadi_own_eval", "pairs_reference"],
         ["combos_numpy", "combos_SX", "combos_MX"],
